@@ -18,6 +18,8 @@ TECH = {
     'C01': 'Verus contracts (strategy contract WF=>WF\') on functions extracted from /repo each run; bounded-exhaustive native execution of the same contract for simple()',
     'C02': 'Verus contracts (alignment/order clauses of WF, align_bytes) on extracted functions; Kani bounded contract of max_size/max_type_align; bounded stand-in for simple()',
     'C03': 'Verus frame clause of the strategy contract on extracted functions; bounded stand-in for simple(); Kani on generated modules for size/align equality',
+    'C12': 'Verus: builder invariant preserved by every public operation (functions extracted from /repo each run); strategy membership clause; bounded stand-in for simple()',
+    'C18': 'Verus: postcondition of every add_* entry point against an abstract type resolver',
     'C08': 'Kani: postcondition of try_convert_vec_in_place checked with a specification converter, bounded vector length',
     'C09': 'Kani: error-arm postcondition with ghost drop counters and CBMC memory-leak check, bounded vector length',
     'C10': 'Kani: per type pair the refusal assertion is the only failing check and the converter is unreachable',
